@@ -209,123 +209,118 @@ Proof.
   - apply lift_one. intros [rk|] d'; [reflexivity|]. destruct b; reflexivity.
 Qed.
 
-(* MGET is the exception: the array header is written before the keys are read, so a
-   wrong-typed key leaves a partial array followed by an error line *)
-Lemma mget_not_one : exists args now d,
-  match h_mget args with HBody b => bres_one (b now d) = false | _ => False end.
+Lemma one_h_mget : handler_one h_mget.
 Proof.
-  set (k := [x6b]).
-  set (d0 := snd (new_key None k (VList DsList.list_new) (db_empty false))).
-  exists [k; k], 0, d0. vm_compute. reflexivity.
+  unfold handler_one, h_mget, need. intro args. destruct (nargs args <? 1); [exact I|].
+  intros now d. apply mget_loop_one.
 Qed.
 
-(* every entry of the command table except MGET writes exactly one value *)
-Definition n_MGET : bytes := cn [77;71;69;84].
-Theorem table_one : forall name h, lookup_cmd name cmd_table = Some h -> bytes_eqb n_MGET name = false -> handler_one h.
+(* every entry of the command table writes exactly one value *)
+Theorem table_one : forall name h, lookup_cmd name cmd_table = Some h -> handler_one h.
 Proof.
   intros name h. unfold cmd_table. cbn [lookup_cmd].
-  destruct (bytes_eqb (cn [68;69;76]) name); [intros H _; injection H as <-; exact one_h_del |].
-  destruct (bytes_eqb (cn [85;78;76;73;78;75]) name); [intros H _; injection H as <-; exact one_h_del |].
-  destruct (bytes_eqb (cn [69;88;73;83;84;83]) name); [intros H _; injection H as <-; exact one_h_exists |].
-  destruct (bytes_eqb (cn [69;88;80;73;82;69]) name); [intros H _; injection H as <-; exact one_h_expire |].
-  destruct (bytes_eqb (cn [69;88;80;73;82;69;65;84]) name); [intros H _; injection H as <-; exact one_h_expireat |].
-  destruct (bytes_eqb (cn [75;69;89;83]) name); [intros H _; injection H as <-; exact one_h_keys |].
-  destruct (bytes_eqb (cn [84;84;76]) name); [intros H _; injection H as <-; exact one_h_ttl |].
-  destruct (bytes_eqb (cn [80;84;84;76]) name); [intros H _; injection H as <-; exact one_h_pttl |].
-  destruct (bytes_eqb (cn [80;69;82;83;73;83;84]) name); [intros H _; injection H as <-; exact one_h_persist |].
-  destruct (bytes_eqb (cn [82;69;78;65;77;69]) name); [intros H _; injection H as <-; exact one_h_rename |].
-  destruct (bytes_eqb (cn [82;69;78;65;77;69;78;88]) name); [intros H _; injection H as <-; exact one_h_renamenx |].
-  destruct (bytes_eqb (cn [84;89;80;69]) name); [intros H _; injection H as <-; exact one_h_type |].
-  destruct (bytes_eqb (cn [83;67;65;78]) name); [intros H _; injection H as <-; exact one_h_scan |].
-  destruct (bytes_eqb (cn [83;69;84]) name); [intros H _; injection H as <-; exact one_h_set |].
-  destruct (bytes_eqb (cn [77;83;69;84]) name); [intros H _; injection H as <-; exact one_h_mset |].
-  destruct (bytes_eqb (cn [65;80;80;69;78;68]) name); [intros H _; injection H as <-; exact one_h_append |].
-  destruct (bytes_eqb (cn [83;69;84;69;88]) name); [intros H _; injection H as <-; exact one_h_setex |].
-  destruct (bytes_eqb (cn [83;69;84;78;88]) name); [intros H _; injection H as <-; exact one_h_setnx |].
-  destruct (bytes_eqb (cn [71;69;84]) name); [intros H _; injection H as <-; exact one_h_get |].
-  destruct (bytes_eqb (cn [71;69;84;83;69;84]) name); [intros H _; injection H as <-; exact one_h_getset |].
-  destruct (bytes_eqb (cn [77;71;69;84]) name) eqn:E; [intros _ M; unfold n_MGET in M; rewrite E in M; discriminate | clear E].
-  destruct (bytes_eqb (cn [83;69;84;82;65;78;71;69]) name); [intros H _; injection H as <-; exact one_h_setrange |].
-  destruct (bytes_eqb (cn [71;69;84;82;65;78;71;69]) name); [intros H _; injection H as <-; exact one_h_getrange |].
-  destruct (bytes_eqb (cn [83;84;82;76;69;78]) name); [intros H _; injection H as <-; exact one_h_strlen |].
-  destruct (bytes_eqb (cn [73;78;67;82]) name); [intros H _; injection H as <-; exact one_h_incr |].
-  destruct (bytes_eqb (cn [73;78;67;82;66;89]) name); [intros H _; injection H as <-; exact one_h_incrby |].
-  destruct (bytes_eqb (cn [68;69;67;82]) name); [intros H _; injection H as <-; exact one_h_decr |].
-  destruct (bytes_eqb (cn [68;69;67;82;66;89]) name); [intros H _; injection H as <-; exact one_h_decrby |].
-  destruct (bytes_eqb (cn [73;78;67;82;66;89;70;76;79;65;84]) name); [intros H _; injection H as <-; exact one_h_incrbyfloat |].
-  destruct (bytes_eqb (cn [83;69;84;66;73;84]) name); [intros H _; injection H as <-; exact one_h_setbit |].
-  destruct (bytes_eqb (cn [71;69;84;66;73;84]) name); [intros H _; injection H as <-; exact one_h_getbit |].
-  destruct (bytes_eqb (cn [66;73;84;67;79;85;78;84]) name); [intros H _; injection H as <-; exact one_h_bitcount |].
-  destruct (bytes_eqb (cn [83;65;68;68]) name); [intros H _; injection H as <-; exact one_h_sadd |].
-  destruct (bytes_eqb (cn [83;77;79;86;69]) name); [intros H _; injection H as <-; exact one_h_smove |].
-  destruct (bytes_eqb (cn [83;83;67;65;78]) name); [intros H _; injection H as <-; exact one_h_sscan |].
-  destruct (bytes_eqb (cn [83;67;65;82;68]) name); [intros H _; injection H as <-; exact one_h_scard |].
-  destruct (bytes_eqb (cn [83;80;79;80]) name); [intros H _; injection H as <-; exact one_h_spop |].
-  destruct (bytes_eqb (cn [83;68;73;70;70]) name); [intros H _; injection H as <-; exact one_h_salgebra_api_sdiff |].
-  destruct (bytes_eqb (cn [83;68;73;70;70;83;84;79;82;69]) name); [intros H _; injection H as <-; exact one_h_sstore_true_api_sdiff |].
-  destruct (bytes_eqb (cn [83;73;78;84;69;82]) name); [intros H _; injection H as <-; exact one_h_salgebra_api_sinter |].
-  destruct (bytes_eqb (cn [83;73;78;84;69;82;83;84;79;82;69]) name); [intros H _; injection H as <-; exact one_h_sstore_true_api_sinter |].
-  destruct (bytes_eqb (cn [83;85;78;73;79;78]) name); [intros H _; injection H as <-; exact one_h_salgebra_api_sunion |].
-  destruct (bytes_eqb (cn [83;85;78;73;79;78;83;84;79;82;69]) name); [intros H _; injection H as <-; exact one_h_sstore_false_api_sunion |].
-  destruct (bytes_eqb (cn [83;73;83;77;69;77;66;69;82]) name); [intros H _; injection H as <-; exact one_h_sismember |].
-  destruct (bytes_eqb (cn [83;77;69;77;66;69;82;83]) name); [intros H _; injection H as <-; exact one_h_smembers |].
-  destruct (bytes_eqb (cn [83;82;69;77]) name); [intros H _; injection H as <-; exact one_h_srem |].
-  destruct (bytes_eqb (cn [72;83;69;84]) name); [intros H _; injection H as <-; exact one_h_hset |].
-  destruct (bytes_eqb (cn [72;71;69;84]) name); [intros H _; injection H as <-; exact one_h_hget |].
-  destruct (bytes_eqb (cn [72;68;69;76]) name); [intros H _; injection H as <-; exact one_h_hdel |].
-  destruct (bytes_eqb (cn [72;76;69;78]) name); [intros H _; injection H as <-; exact one_h_hlen |].
-  destruct (bytes_eqb (cn [72;75;69;89;83]) name); [intros H _; injection H as <-; exact one_h_hkeys |].
-  destruct (bytes_eqb (cn [72;69;88;73;83;84;83]) name); [intros H _; injection H as <-; exact one_h_hexists |].
-  destruct (bytes_eqb (cn [72;71;69;84;65;76;76]) name); [intros H _; injection H as <-; exact one_h_hgetall |].
-  destruct (bytes_eqb (cn [72;73;78;67;82;66;89]) name); [intros H _; injection H as <-; exact one_h_hincrby |].
-  destruct (bytes_eqb (cn [72;73;78;67;82;66;89;70;76;79;65;84]) name); [intros H _; injection H as <-; exact one_h_hincrbyfloat |].
-  destruct (bytes_eqb (cn [72;83;69;84;78;88]) name); [intros H _; injection H as <-; exact one_h_hsetnx |].
-  destruct (bytes_eqb (cn [72;77;71;69;84]) name); [intros H _; injection H as <-; exact one_h_hmget |].
-  destruct (bytes_eqb (cn [72;77;83;69;84]) name); [intros H _; injection H as <-; exact one_h_hmset |].
-  destruct (bytes_eqb (cn [72;67;76;69;65;82]) name); [intros H _; injection H as <-; exact one_h_hclear |].
-  destruct (bytes_eqb (cn [72;83;84;82;76;69;78]) name); [intros H _; injection H as <-; exact one_h_hstrlen |].
-  destruct (bytes_eqb (cn [72;83;67;65;78]) name); [intros H _; injection H as <-; exact one_h_hscan |].
-  destruct (bytes_eqb (cn [72;86;65;76;83]) name); [intros H _; injection H as <-; exact one_h_hvals |].
-  destruct (bytes_eqb (cn [76;80;85;83;72]) name); [intros H _; injection H as <-; exact one_h_push_true |].
-  destruct (bytes_eqb (cn [82;80;85;83;72]) name); [intros H _; injection H as <-; exact one_h_push_false |].
-  destruct (bytes_eqb (cn [76;80;79;80]) name); [intros H _; injection H as <-; exact one_h_pop_true |].
-  destruct (bytes_eqb (cn [82;80;79;80]) name); [intros H _; injection H as <-; exact one_h_pop_false |].
-  destruct (bytes_eqb (cn [76;76;69;78]) name); [intros H _; injection H as <-; exact one_h_llen |].
-  destruct (bytes_eqb (cn [76;73;78;68;69;88]) name); [intros H _; injection H as <-; exact one_h_lindex |].
-  destruct (bytes_eqb (cn [76;73;78;83;69;82;84]) name); [intros H _; injection H as <-; exact one_h_linsert |].
-  destruct (bytes_eqb (cn [76;80;85;83;72;88]) name); [intros H _; injection H as <-; exact one_h_pushx_true |].
-  destruct (bytes_eqb (cn [82;80;85;83;72;88]) name); [intros H _; injection H as <-; exact one_h_pushx_false |].
-  destruct (bytes_eqb (cn [76;82;69;77]) name); [intros H _; injection H as <-; exact one_h_lrem |].
-  destruct (bytes_eqb (cn [76;84;82;73;77]) name); [intros H _; injection H as <-; exact one_h_ltrim |].
-  destruct (bytes_eqb (cn [76;83;69;84]) name); [intros H _; injection H as <-; exact one_h_lset |].
-  destruct (bytes_eqb (cn [76;82;65;78;71;69]) name); [intros H _; injection H as <-; exact one_h_lrange |].
-  destruct (bytes_eqb (cn [76;80;79;80;82;80;85;83;72]) name); [intros H _; injection H as <-; exact one_h_move_true |].
-  destruct (bytes_eqb (cn [82;80;79;80;76;80;85;83;72]) name); [intros H _; injection H as <-; exact one_h_move_false |].
-  destruct (bytes_eqb (cn [90;65;68;68]) name); [intros H _; injection H as <-; exact one_h_zadd |].
-  destruct (bytes_eqb (cn [90;67;65;82;68]) name); [intros H _; injection H as <-; exact one_h_zcard |].
-  destruct (bytes_eqb (cn [90;82;65;78;75]) name); [intros H _; injection H as <-; exact (one_h_zrank _) |].
-  destruct (bytes_eqb (cn [90;82;69;86;82;65;78;75]) name); [intros H _; injection H as <-; exact (one_h_zrank _) |].
-  destruct (bytes_eqb (cn [90;83;67;79;82;69]) name); [intros H _; injection H as <-; exact one_h_zscore |].
-  destruct (bytes_eqb (cn [90;73;78;67;82;66;89]) name); [intros H _; injection H as <-; exact one_h_zincrby |].
-  destruct (bytes_eqb (cn [90;82;65;78;71;69]) name); [intros H _; injection H as <-; exact one_h_zrange |].
-  destruct (bytes_eqb (cn [90;82;69;86;82;65;78;71;69]) name); [intros H _; injection H as <-; exact one_h_zrevrange |].
-  destruct (bytes_eqb (cn [90;82;65;78;71;69;66;89;83;67;79;82;69]) name); [intros H _; injection H as <-; exact one_h_zrangebyscore_false |].
-  destruct (bytes_eqb (cn [90;82;69;86;82;65;78;71;69;66;89;83;67;79;82;69]) name); [intros H _; injection H as <-; exact one_h_zrangebyscore_true |].
-  destruct (bytes_eqb (cn [90;82;69;77]) name); [intros H _; injection H as <-; exact one_h_zrem |].
-  destruct (bytes_eqb (cn [90;67;79;85;78;84]) name); [intros H _; injection H as <-; exact one_h_zcount |].
-  destruct (bytes_eqb (cn [90;82;69;77;82;65;78;71;69;66;89;82;65;78;75]) name); [intros H _; injection H as <-; exact one_h_zremrangebyrank |].
-  destruct (bytes_eqb (cn [90;82;69;77;82;65;78;71;69;66;89;83;67;79;82;69]) name); [intros H _; injection H as <-; exact one_h_zremrangebyscore |].
-  destruct (bytes_eqb (cn [90;67;76;69;65;82]) name); [intros H _; injection H as <-; exact one_h_zclear |].
-  destruct (bytes_eqb (cn [90;85;78;73;79;78;83;84;79;82;69]) name); [intros H _; injection H as <-; exact one_h_zstore_false |].
-  destruct (bytes_eqb (cn [90;73;78;84;69;82;83;84;79;82;69]) name); [intros H _; injection H as <-; exact one_h_zstore_true |].
-  destruct (bytes_eqb (cn [90;69;88;73;83;84;83]) name); [intros H _; injection H as <-; exact one_h_zexists |].
-  destruct (bytes_eqb (cn [90;83;67;65;78]) name); [intros H _; injection H as <-; exact one_h_zscan |].
-  destruct (bytes_eqb (cn [68;66;83;73;90;69]) name); [intros H _; injection H as <-; exact one_h_dbsize |].
-  destruct (bytes_eqb (cn [70;76;85;83;72;68;66]) name); [intros H _; injection H as <-; exact one_h_flushdb |].
-  destruct (bytes_eqb (cn [70;76;85;83;72;65;76;76]) name); [intros H _; injection H as <-; exact one_h_flushdb |].
-  destruct (bytes_eqb (cn [83;65;86;69]) name); [intros H _; injection H as <-; exact one_h_save |].
-  destruct (bytes_eqb (cn [80;73;78;71]) name); [intros H _; injection H as <-; exact one_h_ping |].
-  destruct (bytes_eqb (cn [69;67;72;79]) name); [intros H _; injection H as <-; exact one_h_echo |].
+  destruct (bytes_eqb (cn [68;69;76]) name); [intros H; injection H as <-; exact one_h_del |].
+  destruct (bytes_eqb (cn [85;78;76;73;78;75]) name); [intros H; injection H as <-; exact one_h_del |].
+  destruct (bytes_eqb (cn [69;88;73;83;84;83]) name); [intros H; injection H as <-; exact one_h_exists |].
+  destruct (bytes_eqb (cn [69;88;80;73;82;69]) name); [intros H; injection H as <-; exact one_h_expire |].
+  destruct (bytes_eqb (cn [69;88;80;73;82;69;65;84]) name); [intros H; injection H as <-; exact one_h_expireat |].
+  destruct (bytes_eqb (cn [75;69;89;83]) name); [intros H; injection H as <-; exact one_h_keys |].
+  destruct (bytes_eqb (cn [84;84;76]) name); [intros H; injection H as <-; exact one_h_ttl |].
+  destruct (bytes_eqb (cn [80;84;84;76]) name); [intros H; injection H as <-; exact one_h_pttl |].
+  destruct (bytes_eqb (cn [80;69;82;83;73;83;84]) name); [intros H; injection H as <-; exact one_h_persist |].
+  destruct (bytes_eqb (cn [82;69;78;65;77;69]) name); [intros H; injection H as <-; exact one_h_rename |].
+  destruct (bytes_eqb (cn [82;69;78;65;77;69;78;88]) name); [intros H; injection H as <-; exact one_h_renamenx |].
+  destruct (bytes_eqb (cn [84;89;80;69]) name); [intros H; injection H as <-; exact one_h_type |].
+  destruct (bytes_eqb (cn [83;67;65;78]) name); [intros H; injection H as <-; exact one_h_scan |].
+  destruct (bytes_eqb (cn [83;69;84]) name); [intros H; injection H as <-; exact one_h_set |].
+  destruct (bytes_eqb (cn [77;83;69;84]) name); [intros H; injection H as <-; exact one_h_mset |].
+  destruct (bytes_eqb (cn [65;80;80;69;78;68]) name); [intros H; injection H as <-; exact one_h_append |].
+  destruct (bytes_eqb (cn [83;69;84;69;88]) name); [intros H; injection H as <-; exact one_h_setex |].
+  destruct (bytes_eqb (cn [83;69;84;78;88]) name); [intros H; injection H as <-; exact one_h_setnx |].
+  destruct (bytes_eqb (cn [71;69;84]) name); [intros H; injection H as <-; exact one_h_get |].
+  destruct (bytes_eqb (cn [71;69;84;83;69;84]) name); [intros H; injection H as <-; exact one_h_getset |].
+  destruct (bytes_eqb (cn [77;71;69;84]) name); [intros H; injection H as <-; exact one_h_mget |].
+  destruct (bytes_eqb (cn [83;69;84;82;65;78;71;69]) name); [intros H; injection H as <-; exact one_h_setrange |].
+  destruct (bytes_eqb (cn [71;69;84;82;65;78;71;69]) name); [intros H; injection H as <-; exact one_h_getrange |].
+  destruct (bytes_eqb (cn [83;84;82;76;69;78]) name); [intros H; injection H as <-; exact one_h_strlen |].
+  destruct (bytes_eqb (cn [73;78;67;82]) name); [intros H; injection H as <-; exact one_h_incr |].
+  destruct (bytes_eqb (cn [73;78;67;82;66;89]) name); [intros H; injection H as <-; exact one_h_incrby |].
+  destruct (bytes_eqb (cn [68;69;67;82]) name); [intros H; injection H as <-; exact one_h_decr |].
+  destruct (bytes_eqb (cn [68;69;67;82;66;89]) name); [intros H; injection H as <-; exact one_h_decrby |].
+  destruct (bytes_eqb (cn [73;78;67;82;66;89;70;76;79;65;84]) name); [intros H; injection H as <-; exact one_h_incrbyfloat |].
+  destruct (bytes_eqb (cn [83;69;84;66;73;84]) name); [intros H; injection H as <-; exact one_h_setbit |].
+  destruct (bytes_eqb (cn [71;69;84;66;73;84]) name); [intros H; injection H as <-; exact one_h_getbit |].
+  destruct (bytes_eqb (cn [66;73;84;67;79;85;78;84]) name); [intros H; injection H as <-; exact one_h_bitcount |].
+  destruct (bytes_eqb (cn [83;65;68;68]) name); [intros H; injection H as <-; exact one_h_sadd |].
+  destruct (bytes_eqb (cn [83;77;79;86;69]) name); [intros H; injection H as <-; exact one_h_smove |].
+  destruct (bytes_eqb (cn [83;83;67;65;78]) name); [intros H; injection H as <-; exact one_h_sscan |].
+  destruct (bytes_eqb (cn [83;67;65;82;68]) name); [intros H; injection H as <-; exact one_h_scard |].
+  destruct (bytes_eqb (cn [83;80;79;80]) name); [intros H; injection H as <-; exact one_h_spop |].
+  destruct (bytes_eqb (cn [83;68;73;70;70]) name); [intros H; injection H as <-; exact one_h_salgebra_api_sdiff |].
+  destruct (bytes_eqb (cn [83;68;73;70;70;83;84;79;82;69]) name); [intros H; injection H as <-; exact one_h_sstore_true_api_sdiff |].
+  destruct (bytes_eqb (cn [83;73;78;84;69;82]) name); [intros H; injection H as <-; exact one_h_salgebra_api_sinter |].
+  destruct (bytes_eqb (cn [83;73;78;84;69;82;83;84;79;82;69]) name); [intros H; injection H as <-; exact one_h_sstore_true_api_sinter |].
+  destruct (bytes_eqb (cn [83;85;78;73;79;78]) name); [intros H; injection H as <-; exact one_h_salgebra_api_sunion |].
+  destruct (bytes_eqb (cn [83;85;78;73;79;78;83;84;79;82;69]) name); [intros H; injection H as <-; exact one_h_sstore_false_api_sunion |].
+  destruct (bytes_eqb (cn [83;73;83;77;69;77;66;69;82]) name); [intros H; injection H as <-; exact one_h_sismember |].
+  destruct (bytes_eqb (cn [83;77;69;77;66;69;82;83]) name); [intros H; injection H as <-; exact one_h_smembers |].
+  destruct (bytes_eqb (cn [83;82;69;77]) name); [intros H; injection H as <-; exact one_h_srem |].
+  destruct (bytes_eqb (cn [72;83;69;84]) name); [intros H; injection H as <-; exact one_h_hset |].
+  destruct (bytes_eqb (cn [72;71;69;84]) name); [intros H; injection H as <-; exact one_h_hget |].
+  destruct (bytes_eqb (cn [72;68;69;76]) name); [intros H; injection H as <-; exact one_h_hdel |].
+  destruct (bytes_eqb (cn [72;76;69;78]) name); [intros H; injection H as <-; exact one_h_hlen |].
+  destruct (bytes_eqb (cn [72;75;69;89;83]) name); [intros H; injection H as <-; exact one_h_hkeys |].
+  destruct (bytes_eqb (cn [72;69;88;73;83;84;83]) name); [intros H; injection H as <-; exact one_h_hexists |].
+  destruct (bytes_eqb (cn [72;71;69;84;65;76;76]) name); [intros H; injection H as <-; exact one_h_hgetall |].
+  destruct (bytes_eqb (cn [72;73;78;67;82;66;89]) name); [intros H; injection H as <-; exact one_h_hincrby |].
+  destruct (bytes_eqb (cn [72;73;78;67;82;66;89;70;76;79;65;84]) name); [intros H; injection H as <-; exact one_h_hincrbyfloat |].
+  destruct (bytes_eqb (cn [72;83;69;84;78;88]) name); [intros H; injection H as <-; exact one_h_hsetnx |].
+  destruct (bytes_eqb (cn [72;77;71;69;84]) name); [intros H; injection H as <-; exact one_h_hmget |].
+  destruct (bytes_eqb (cn [72;77;83;69;84]) name); [intros H; injection H as <-; exact one_h_hmset |].
+  destruct (bytes_eqb (cn [72;67;76;69;65;82]) name); [intros H; injection H as <-; exact one_h_hclear |].
+  destruct (bytes_eqb (cn [72;83;84;82;76;69;78]) name); [intros H; injection H as <-; exact one_h_hstrlen |].
+  destruct (bytes_eqb (cn [72;83;67;65;78]) name); [intros H; injection H as <-; exact one_h_hscan |].
+  destruct (bytes_eqb (cn [72;86;65;76;83]) name); [intros H; injection H as <-; exact one_h_hvals |].
+  destruct (bytes_eqb (cn [76;80;85;83;72]) name); [intros H; injection H as <-; exact one_h_push_true |].
+  destruct (bytes_eqb (cn [82;80;85;83;72]) name); [intros H; injection H as <-; exact one_h_push_false |].
+  destruct (bytes_eqb (cn [76;80;79;80]) name); [intros H; injection H as <-; exact one_h_pop_true |].
+  destruct (bytes_eqb (cn [82;80;79;80]) name); [intros H; injection H as <-; exact one_h_pop_false |].
+  destruct (bytes_eqb (cn [76;76;69;78]) name); [intros H; injection H as <-; exact one_h_llen |].
+  destruct (bytes_eqb (cn [76;73;78;68;69;88]) name); [intros H; injection H as <-; exact one_h_lindex |].
+  destruct (bytes_eqb (cn [76;73;78;83;69;82;84]) name); [intros H; injection H as <-; exact one_h_linsert |].
+  destruct (bytes_eqb (cn [76;80;85;83;72;88]) name); [intros H; injection H as <-; exact one_h_pushx_true |].
+  destruct (bytes_eqb (cn [82;80;85;83;72;88]) name); [intros H; injection H as <-; exact one_h_pushx_false |].
+  destruct (bytes_eqb (cn [76;82;69;77]) name); [intros H; injection H as <-; exact one_h_lrem |].
+  destruct (bytes_eqb (cn [76;84;82;73;77]) name); [intros H; injection H as <-; exact one_h_ltrim |].
+  destruct (bytes_eqb (cn [76;83;69;84]) name); [intros H; injection H as <-; exact one_h_lset |].
+  destruct (bytes_eqb (cn [76;82;65;78;71;69]) name); [intros H; injection H as <-; exact one_h_lrange |].
+  destruct (bytes_eqb (cn [76;80;79;80;82;80;85;83;72]) name); [intros H; injection H as <-; exact one_h_move_true |].
+  destruct (bytes_eqb (cn [82;80;79;80;76;80;85;83;72]) name); [intros H; injection H as <-; exact one_h_move_false |].
+  destruct (bytes_eqb (cn [90;65;68;68]) name); [intros H; injection H as <-; exact one_h_zadd |].
+  destruct (bytes_eqb (cn [90;67;65;82;68]) name); [intros H; injection H as <-; exact one_h_zcard |].
+  destruct (bytes_eqb (cn [90;82;65;78;75]) name); [intros H; injection H as <-; exact (one_h_zrank _) |].
+  destruct (bytes_eqb (cn [90;82;69;86;82;65;78;75]) name); [intros H; injection H as <-; exact (one_h_zrank _) |].
+  destruct (bytes_eqb (cn [90;83;67;79;82;69]) name); [intros H; injection H as <-; exact one_h_zscore |].
+  destruct (bytes_eqb (cn [90;73;78;67;82;66;89]) name); [intros H; injection H as <-; exact one_h_zincrby |].
+  destruct (bytes_eqb (cn [90;82;65;78;71;69]) name); [intros H; injection H as <-; exact one_h_zrange |].
+  destruct (bytes_eqb (cn [90;82;69;86;82;65;78;71;69]) name); [intros H; injection H as <-; exact one_h_zrevrange |].
+  destruct (bytes_eqb (cn [90;82;65;78;71;69;66;89;83;67;79;82;69]) name); [intros H; injection H as <-; exact one_h_zrangebyscore_false |].
+  destruct (bytes_eqb (cn [90;82;69;86;82;65;78;71;69;66;89;83;67;79;82;69]) name); [intros H; injection H as <-; exact one_h_zrangebyscore_true |].
+  destruct (bytes_eqb (cn [90;82;69;77]) name); [intros H; injection H as <-; exact one_h_zrem |].
+  destruct (bytes_eqb (cn [90;67;79;85;78;84]) name); [intros H; injection H as <-; exact one_h_zcount |].
+  destruct (bytes_eqb (cn [90;82;69;77;82;65;78;71;69;66;89;82;65;78;75]) name); [intros H; injection H as <-; exact one_h_zremrangebyrank |].
+  destruct (bytes_eqb (cn [90;82;69;77;82;65;78;71;69;66;89;83;67;79;82;69]) name); [intros H; injection H as <-; exact one_h_zremrangebyscore |].
+  destruct (bytes_eqb (cn [90;67;76;69;65;82]) name); [intros H; injection H as <-; exact one_h_zclear |].
+  destruct (bytes_eqb (cn [90;85;78;73;79;78;83;84;79;82;69]) name); [intros H; injection H as <-; exact one_h_zstore_false |].
+  destruct (bytes_eqb (cn [90;73;78;84;69;82;83;84;79;82;69]) name); [intros H; injection H as <-; exact one_h_zstore_true |].
+  destruct (bytes_eqb (cn [90;69;88;73;83;84;83]) name); [intros H; injection H as <-; exact one_h_zexists |].
+  destruct (bytes_eqb (cn [90;83;67;65;78]) name); [intros H; injection H as <-; exact one_h_zscan |].
+  destruct (bytes_eqb (cn [68;66;83;73;90;69]) name); [intros H; injection H as <-; exact one_h_dbsize |].
+  destruct (bytes_eqb (cn [70;76;85;83;72;68;66]) name); [intros H; injection H as <-; exact one_h_flushdb |].
+  destruct (bytes_eqb (cn [70;76;85;83;72;65;76;76]) name); [intros H; injection H as <-; exact one_h_flushdb |].
+  destruct (bytes_eqb (cn [83;65;86;69]) name); [intros H; injection H as <-; exact one_h_save |].
+  destruct (bytes_eqb (cn [80;73;78;71]) name); [intros H; injection H as <-; exact one_h_ping |].
+  destruct (bytes_eqb (cn [69;67;72;79]) name); [intros H; injection H as <-; exact one_h_echo |].
   discriminate.
 Qed.
 
@@ -407,10 +402,10 @@ Ltac fin Hok :=
   let A := fresh in let B := fresh in destruct H as [A B]; subst; split; [reflexivity|exact B].
 
 Theorem serve_one : forall c name args now s s' acts,
-  server_ok s -> bytes_eqb n_MGET name = false ->
+  server_ok s ->
   serve c name args now s = Some (s', acts) -> one_value acts = true /\ server_ok s'.
 Proof.
-  intros c name args now s s' acts Hs Hm. unfold serve.
+  intros c name args now s s' acts Hs. unfold serve.
   pose proof (get_conn_ok c s Hs) as Hx.
   set (x := get_conn c s) in *.
   set (n0 := length (events (s_db s))).
@@ -453,7 +448,7 @@ Proof.
       reflexivity.
     - apply put_conn_ok; [|exact conn_new_ok]. apply apply_signals_ok. exact Hs. }
   destruct (lookup_cmd name cmd_table) as [h|] eqn:L.
-  - pose proof (table_one name h L Hm args) as Hh.
+  - pose proof (table_one name h L args) as Hh.
     destruct (h args) as [| |body|].
     + fin Hs.
     + fin Hs.
